@@ -129,6 +129,8 @@ theorem arith_div_fin (a b : K) (hb : b ≠ 0) :
   simp [Arith.neg, Ext.neg]
 @[simp] theorem arith_eq_fin (a b : K) : Arith.eq (Ext.fin a) (Ext.fin b) = decide (a = b) := by
   simp [Arith.eq, Ext.eq]
+@[simp] theorem arith_eq_fin_iff (x : Ext K) (a : K) : Arith.eq x (Ext.fin a) = true ↔ x = .fin a := by
+  cases x <;> simp [Arith.eq, Ext.eq]
 /-- `x == 0.0` at `Ext K`: exactly the finite zero (no signed zero, NaN/±inf are not zero). -/
 theorem arith_eq_zero_iff (x : Ext K) : Arith.eq x (Arith.zero : Ext K) = true ↔ x = .fin 0 := by
   cases x <;> simp [Arith.eq, Ext.eq]
